@@ -10,7 +10,9 @@
        surface field, modal / nodal   (1, m1, m2) / (1, I, J)   -> (surface, ..) if K # 1, (level, ..) if K = 1
                                       (a `surface` coordinate of size 1 is added by default iff K # 1)
        2-d field, modal / nodal       (m1, m2) / (I, J)         -> (longitudinal_mode, total_wavenumber) / (lon, lat)
-   each prefixed by (sample, time) when sample ids / times are given.
+   each prefixed by (sample, time) when sample ids / times are given, and - non-scalars only - by a
+   singleton `realization` axis in front of those when a realization coordinate is supplied
+   (order: realization, sample, time, ...; per-step scalars such as sim_time stay (sample, time)).
    Two kinds are *ambiguous* in a configuration when their shapes coincide but their names do
    not (only possible when the nodal and modal shapes coincide); for those only "no exception,
    data preserved" is owed.
@@ -43,9 +45,10 @@ NodalNames == <<"lon", "lat">>
 
 Configs ==
   {c \in [grid : GridCodes, K : LayerCounts, eq : {"primitive", "primitive_with_time", "shallow", "datadict"},
-          rep : {"modal", "nodal"}, ntr : Tracers, sample : Samples, time : Times] :
+          rep : {"modal", "nodal"}, ntr : Tracers, sample : Samples, time : Times, real : BOOLEAN] :
      /\ (c.eq \in {"shallow", "datadict"} => c.ntr = 0)
-     /\ (c.eq = "datadict" => c.rep = "nodal" /\ c.sample = 0)}
+     /\ (c.eq = "datadict" => c.rep = "nodal" /\ c.sample = 0 /\ ~c.real)
+     /\ (c.real => c.rep = "modal")}
 
 G == GridOf(cfg.grid)
 Hor == IF cfg.rep = "modal" THEN Modal(G) ELSE Nodal(G)
@@ -74,8 +77,10 @@ BaseShape(kind) == CASE kind = "scalar" -> <<>> [] kind = "level" -> <<cfg.K>> \
 BaseNames(kind) == CASE kind = "scalar" -> <<>> [] kind = "level" -> <<"level">> \o HorNames
                      [] kind = "surface" -> <<IF cfg.K = 1 THEN "level" ELSE "surface">> \o HorNames
                      [] kind = "twod" -> HorNames
-Shape(kind) == Prefix \o BaseShape(kind)
-Owed(kind) == PrefixNames \o BaseNames(kind)
+RealShape(kind) == IF cfg.real /\ kind # "scalar" THEN <<1>> ELSE <<>>
+RealNames(kind) == IF cfg.real /\ kind # "scalar" THEN <<"realization">> ELSE <<>>
+Shape(kind) == RealShape(kind) \o Prefix \o BaseShape(kind)
+Owed(kind) == RealNames(kind) \o PrefixNames \o BaseNames(kind)
 
 (* every (shape, names) pair a variable of *some* representation could be owed in this
    configuration; ambiguity = same shape, different names *)
@@ -134,7 +139,7 @@ Spec == Init /\ [][Next]_vars
 (* names are owed one per axis *)
 RankConsistent == \A i \in 1..Len(ds) : Len(ds[i].dims) = Len(ds[i].shape)
 (* a dimension name never carries two sizes in one dataset *)
-SizeOf(d) == LET hits == {<<i, j>> \in (1..Len(ds)) \X (1..6) : j <= Len(ds[i].dims) /\ ds[i].dims[j] = d}
+SizeOf(d) == LET hits == {<<i, j>> \in (1..Len(ds)) \X (1..7) : j <= Len(ds[i].dims) /\ ds[i].dims[j] = d}
                  h == CHOOSE q \in hits : TRUE
              IN  ds[h[1]].shape[h[2]]
 DimNames == UNION {{ds[i].dims[j] : j \in 1..Len(ds[i].dims)} : i \in 1..Len(ds)}
@@ -143,6 +148,9 @@ SizesConsistent == \A i \in 1..Len(ds) : \A j \in 1..Len(ds[i].dims) :
 ShapesComeBack == pc = "done" => \A i \in 1..Len(ds) :
    /\ back[i].name = ds[i].name
    /\ (cfg.eq # "datadict" => back[i].shape = ds[i].shape)
+RealizationFirstOnNonScalars == \A i \in 1..Len(ds) :
+   /\ (cfg.real /\ Vars[i].kind # "scalar") => (ds[i].dims[1] = "realization" /\ ds[i].shape[1] = 1)
+   /\ (Vars[i].kind = "scalar" \/ ~cfg.real) => \A j \in 1..Len(ds[i].dims) : ds[i].dims[j] # "realization"
 AmbiguityOnlyWhenShapesCoincide == \A i \in 1..Len(ds) : ds[i].ambiguous => Modal(G) = Nodal(G)
 
 DimSeq == LET RECURSIVE Conv(_)
@@ -150,7 +158,7 @@ DimSeq == LET RECURSIVE Conv(_)
           IN  Conv(DimNames)
 Export == pc = "done" =>
   PrintT(<<"CASE", ToJson([grid |-> G, K |-> cfg.K, eq |-> cfg.eq, rep |-> cfg.rep, ntr |-> cfg.ntr,
-                           sample |-> cfg.sample, time |-> cfg.time,
+                           sample |-> cfg.sample, time |-> cfg.time, real |-> cfg.real,
                            modal |-> Modal(G), nodal |-> Nodal(G), vars |-> ds, back |-> back,
                            sizes |-> [i \in 1..Len(DimSeq) |-> [dim |-> DimSeq[i], n |-> SizeOf(DimSeq[i])]]])>>)
 =============================================================================
